@@ -68,11 +68,11 @@ class C01(Prop):
     id = "C01"
     title = "NG Setup + UE registration is accepted by a conformant AMF"
     lean_module = "Stgutg.Props.C01"
-    extra_modules = ["Stgutg.Props.Glue.names", "Stgutg.Props.Glue.stgutg_ManageNGSetup", "Stgutg.Props.Glue.stgutg_RegisterUE", "Stgutg.Props.Glue.stgutg_CreateUE", "Stgutg.Props.Glue.stgutg_ManageError", "Stgutg.Props.Glue.tglib_GetNGSetupRequest", "Stgutg.Props.Glue.tglib_GetInitialUEMessage", "Stgutg.Props.Glue.tglib_GetUplinkNASTransport", "Stgutg.Props.Glue.tglib_GetInitialContextSetupResponse", "Stgutg.Props.Glue.tglib_EncodeNasPduWithSecurity", "Stgutg.Props.Glue.tglib_NASEncode", "Stgutg.Props.Glue.tglib_GetNasPdu", "Stgutg.Props.Glue.tglib_NASDecode", "Stgutg.Props.Glue.tglib_RanUeContext_DeriveRESstarAndSetKey", "Stgutg.Props.Glue.tglib_NewRanUeContext", "Stgutg.Props.Glue.tglib_RanUeContext_GetUESecurityCapability", "Stgutg.Props.Glue.tglib_RanUeContext_Get5GMMCapability", "Stgutg.Props.Glue.tglib_GetAuthSubscription", "Stgutg.Props.C02Traffic", "Stgutg.Props.C01Transport"]
-    gen = ["schema", "registry", "templates", "nasie", "naslayout", "nassetters", "extract", "script", "tables", "traffic", "transport", "procs"]
-    theorems = ["Stgutg.Props.GluePinned." + t for t in [
+    extra_modules = ["Stgutg.Props.Glue.names", "Stgutg.Props.Glue.stgutg_ManageNGSetup", "Stgutg.Props.Glue.stgutg_RegisterUE", "Stgutg.Props.Glue.stgutg_CreateUE", "Stgutg.Props.Glue.stgutg_ManageError", "Stgutg.Props.Glue.tglib_GetNGSetupRequest", "Stgutg.Props.Glue.tglib_GetInitialUEMessage", "Stgutg.Props.Glue.tglib_GetUplinkNASTransport", "Stgutg.Props.Glue.tglib_GetInitialContextSetupResponse", "Stgutg.Props.Glue.tglib_RanUeContext_DeriveRESstarAndSetKey", "Stgutg.Props.Glue.tglib_NewRanUeContext", "Stgutg.Props.Glue.tglib_RanUeContext_GetUESecurityCapability", "Stgutg.Props.Glue.tglib_RanUeContext_Get5GMMCapability", "Stgutg.Props.Glue.tglib_GetAuthSubscription", "Stgutg.Props.C02Traffic", "Stgutg.Props.C01Transport", "Stgutg.Proofs.GenTieNas", "Stgutg.Gen.PureSelftestRich"]
+    gen = ["schema", "registry", "templates", "nasie", "naslayout", "nassetters", "extract", "script", "tables", "traffic", "transport", "procs", "pure-count", "pure-nasprot", "pure-selftest"]
+    theorems = ["Stgutg.Proofs.GenTie.Nas.NASEncode_eq", "Stgutg.Proofs.GenTie.Nas.EncodeNasPduWithSecurity_eq", "Stgutg.Proofs.GenTie.Nas.NASDecode_eq", "Stgutg.Proofs.GenTie.Nas.GetNasPdu_eq"] + ["Stgutg.Props.GluePinned." + t for t in [
         # the glue functions this property depends on are still the text the models were written from (gen procs)
-        "names", "stgutg_ManageNGSetup", "stgutg_RegisterUE", "stgutg_CreateUE", "stgutg_ManageError", "tglib_GetNGSetupRequest", "tglib_GetInitialUEMessage", "tglib_GetUplinkNASTransport", "tglib_GetInitialContextSetupResponse", "tglib_EncodeNasPduWithSecurity", "tglib_NASEncode", "tglib_GetNasPdu", "tglib_NASDecode", "tglib_RanUeContext_DeriveRESstarAndSetKey", "tglib_NewRanUeContext", "tglib_RanUeContext_GetUESecurityCapability", "tglib_RanUeContext_Get5GMMCapability", "tglib_GetAuthSubscription"]] + ["Stgutg.Props.C01Transport." + t for t in [
+        "names", "stgutg_ManageNGSetup", "stgutg_RegisterUE", "stgutg_CreateUE", "stgutg_ManageError", "tglib_GetNGSetupRequest", "tglib_GetInitialUEMessage", "tglib_GetUplinkNASTransport", "tglib_GetInitialContextSetupResponse", "tglib_RanUeContext_DeriveRESstarAndSetKey", "tglib_NewRanUeContext", "tglib_RanUeContext_GetUESecurityCapability", "tglib_RanUeContext_Get5GMMCapability", "tglib_GetAuthSubscription"]] + ["Stgutg.Props.C01Transport." + t for t in [
         # tglib.ConnectToAmf (bypassed by the verif hook, never executed by a run): endpoints and NGAP PPID from the source
         "C01_transport_facts", "C01_transport_endpoints", "C01_transport_ppid"]] + ["Stgutg.Props.C02Traffic." + t for t in [
         # traffic mode (not runnable here) performs NG Setup and registers UE 0 … N−1 exactly as test mode does
